@@ -71,10 +71,11 @@ Proof. vm_compute. reflexivity. Qed.
    well-formed operands: the model of Value::op(a, b, addr_mask), canonicalised (cres), is the DWARF
    stack machine's op on the canonical operands — the same value or the same error.  Signedness per
    operation is in Spec/StackSpec.v (div/abs/neg/shra/compare signed, mod/shr unsigned; shifts by
-   >= width give 0 or the sign).  agrees1/agrees2/agrees_shift (Proofs/OpValProofs.v) are
+   >= width give 0 or the sign).  agrees1/agrees2 (Proofs/OpValProofs.v) are
      agrees2 sz m s := forall a b, addr_size sz -> wf_value a = true -> wf_value b = true ->
-                         cres sz (m a b (amask sz)) = s (canon sz a) (canon sz b)
-   and agrees_shift additionally assumes count_ok sz b (a generic shift count is canonical). *)
+                         cres sz (m a b (amask sz)) = s (canon sz a) (canon sz b).
+   Since repair 0858756 (shift_length applies addr_mask) this holds for the shift operations with no
+   side condition on the count. *)
 Theorem value_ops : forall (F : fops) (sz : N),
   agrees2 sz (vadd F) (sp_add sz F) /\ agrees2 sz (vsub F) (sp_sub sz F) /\ agrees2 sz (vmul F) (sp_mul sz F) /\
   agrees2 sz (vdiv F) (sp_div sz F) /\ agrees2 sz vrem (sp_rem sz) /\
@@ -82,42 +83,39 @@ Theorem value_ops : forall (F : fops) (sz : N),
   agrees1 sz (vnot F) (sp_not sz) /\ agrees1 sz vneg (sp_neg sz) /\ agrees1 sz vabs (sp_abs sz) /\
   agrees2 sz veq (sp_eq sz) /\ agrees2 sz vge (sp_ge sz) /\ agrees2 sz vgt (sp_gt sz) /\
   agrees2 sz vle (sp_le sz) /\ agrees2 sz vlt (sp_lt sz) /\ agrees2 sz vne (sp_ne sz) /\
-  agrees_shift sz vshl (sp_shl sz) /\ agrees_shift sz vshr (sp_shr sz) /\ agrees_shift sz vshra (sp_shra sz) /\
+  agrees2 sz vshl (sp_shl sz) /\ agrees2 sz vshr (sp_shr sz) /\ agrees2 sz vshra (sp_shra sz) /\
   (forall a t, addr_size sz -> wf_value a = true -> cres sz (convert F a t (amask sz)) = sp_convert sz F (canon sz a) t) /\
   (forall a t, addr_size sz -> wf_value a = true -> cres sz (reinterpret a t (amask sz)) = sp_reinterpret sz (canon sz a) t).
 Proof. exact value_ops_lemma. Qed.
 
-(* "Generic values compared modulo the address size", one operation at a time: operands denoting the
-   same canonical values give results denoting the same canonical value (or the same error) — for
-   every operation, EXCEPT that the shift operations need canonical generic counts. *)
+(* "Generic values compared modulo the address size", one operation at a time, for EVERY operation (shift
+   counts included): operands denoting the same canonical values give results denoting the same canonical
+   value, or the same error. *)
 Theorem mask_invariance_partial : forall (F : fops) (sz : N) (a a' b b' : value),
   addr_size sz -> wf_value a = true -> wf_value a' = true -> wf_value b = true -> wf_value b' = true ->
   canon sz a = canon sz a' -> canon sz b = canon sz b' ->
-  (forall op, In op [vadd F; vsub F; vmul F; vdiv F; vrem; vand F; vor F; vxor F; veq; vge; vgt; vle; vlt; vne] ->
+  (forall op, In op [vadd F; vsub F; vmul F; vdiv F; vrem; vand F; vor F; vxor F; veq; vge; vgt; vle; vlt; vne;
+                     vshl; vshr; vshra] ->
      cres sz (op a b (amask sz)) = cres sz (op a' b' (amask sz))) /\
   (forall op, In op [vnot F; vneg; vabs] -> cres sz (op a (amask sz)) = cres sz (op a' (amask sz))) /\
-  (forall op, In op [vshl; vshr; vshra] -> count_ok sz b -> count_ok sz b' ->
-     cres sz (op a b (amask sz)) = cres sz (op a' b' (amask sz))) /\
   (forall t, cres sz (convert F a t (amask sz)) = cres sz (convert F a' t (amask sz))) /\
   (forall t, cres sz (reinterpret a t (amask sz)) = cres sz (reinterpret a' t (amask sz))).
 Proof. exact mask_invariance_ops. Qed.
 (* Full statement (DESIGN): stacks related pointwise by "equal modulo 2^(8 sz) on Generic" step to related
-   stacks with identical requests/results, for whole evaluations.  Missing: (a) it is FALSE for the
-   shift count (next theorem), (b) the lifting of the per-operation statement through
-   evaluate_one_operation/evaluate_internal is not proved; it is exercised by stream c07.spec. *)
+   stacks with identical requests/results, for whole evaluations.  Still missing: the lifting of this
+   per-operation statement through evaluate_one_operation/evaluate_internal (it needs the closure of
+   wf_value under every operation and an assumption on fops); the lifted statement is exercised by stream
+   c07.spec, which compares gimli with the normalised machine on whole evaluations. *)
 
-(* The modulo-address-size reading FAILS for the count operand of shl/shr/shra: Value::shift_length
-   takes the raw 64-bit container.  On a 4-byte target the generic count 2^32+1 denotes 1; the stack
-   machine gives 1 << 1 = 2, gimli gives 0.  (known_findings.txt, proposed_fixes/) *)
-Theorem shift_count_refuted :
-  exists (sz : N) (a b : value), addr_size sz /\ wf_value a = true /\ wf_value b = true /\
-    cres sz (vshl a b (amask sz)) <> sp_shl sz (canon sz a) (canon sz b).
-Proof. exact shift_count_refuted_lemma. Qed.
+(* the repaired behaviour of the former finding: on a 4-byte target the generic count 2^32+1 denotes 1 *)
+Example shift_count_repaired_ex :
+  cres 4 (vshl (mkV TGeneric 1) (mkV TGeneric 4294967297) (amask 4)) = Ok (mkV TGeneric 2) /\
+  sp_shl 4 (canon 4 (mkV TGeneric 1)) (canon 4 (mkV TGeneric 4294967297)) = Ok (mkV TGeneric 2).
+Proof. exact shift_count_repaired. Qed.
 
 (* the hypotheses are satisfiable by non-trivial instances; two boundary computations *)
-Example value_ex_hyp : addr_size 2 /\ wf_value (mkV TGeneric 18446744073709551615) = true /\ count_ok 2 (mkV TGeneric 65535)
-  /\ count_ok 2 (mkV TI8 255).
-Proof. repeat split; try (right; left; reflexivity); try reflexivity; intros; try discriminate; vm_compute; reflexivity. Qed.
+Example value_ex_hyp : addr_size 2 /\ wf_value (mkV TGeneric 18446744073709551615) = true /\ wf_value (mkV TI8 255) = true.
+Proof. repeat split; try (right; left; reflexivity); reflexivity. Qed.
 Example value_ex_shra :   (* 2-byte target: 0x8000 shra 20 = -1 (all ones in the 64-bit container), canonically 0xffff *)
   cres 2 (vshra (mkV TGeneric 32768) (mkV TGeneric 20) (amask 2)) = Ok (mkV TGeneric 65535).
 Proof. vm_compute. reflexivity. Qed.
@@ -135,7 +133,7 @@ Theorem pc_in_bounds : forall (F : fops) (dbg : bool) (c : cfg) (mask : N),
   (forall s r s', inv s -> evaluate_one_operation F dbg c mask s = Ok (r, s') -> inv s') /\
   (forall s, inv s -> inv (snd (end_of_expression s))) /\
   (forall w a s s', inv s -> resume_apply F c mask w a s = Ok s' -> inv s') /\
-  (forall fuel n s o s', c_max c = Some n -> n < 4294967295 -> inv s -> s_iter s <= n ->
+  (forall fuel n s o s', c_max c = Some n -> n <= 4294967295 -> inv s -> s_iter s <= n ->
      evaluate_internal F fuel dbg c mask s = Ok (o, s') -> inv s') /\
   (forall s t, inv s -> compute_pc s t <> Panic).
 Proof. exact pc_in_bounds_lemma. Qed.
@@ -151,16 +149,16 @@ Theorem branch_target_exact : forall (s : st) (t : Z),
     then Ok (skipn (Z.to_nat (off + t)) (s_bytecode s)) else Err EBadBranchTarget.
 Proof. exact compute_pc_exact. Qed.
 
-(* Iteration limit.  With max_iterations = Some n (n < u32::MAX), address size <= 8 and fuel n+1, for
-   EVERY program, answer list, configuration and both build modes the whole conversation
-   (evaluate + all resumes): never runs out of fuel (so it terminates: a looping program ends in
-   Err TooManyIterations), never panics, and on completion at most n operations were evaluated and at
-   most 2n decoded (one per iteration plus at most one extra decode after a completing operation).
+(* Iteration limit.  With max_iterations = Some n for EVERY u32 n (u32::MAX included, since repair 273f60c compares
+   before counting), address size <= 8 and fuel n+1, for EVERY program, answer list, configuration and both build
+   modes the whole conversation (evaluate + all resumes): never runs out of fuel (so it terminates: a looping
+   program ends in Err TooManyIterations), never panics, and on completion at most n operations were evaluated and
+   at most 2n decoded (one per iteration plus at most one extra decode after a completing operation).
    bounded_final n f := f <> FOutOfFuel /\ f <> FPanic /\
                         forall ps vr nops nparse, f = FComplete ps vr nops nparse -> nops <= n /\ nparse <= 2 * n *)
 Theorem iteration_bound : forall (F : fops) (dbg : bool) (c : cfg) (n : N) (fuel : nat)
     (program : list byte) (answers : list answer),
-  c_max c = Some n -> n < 4294967295 -> e_asz (c_enc c) <= 8 -> (N.to_nat n < fuel)%nat ->
+  c_max c = Some n -> n <= 4294967295 -> e_asz (c_enc c) <= 8 -> (N.to_nat n < fuel)%nat ->
   bounded_final n (snd (run F fuel dbg c program answers)).
 Proof. exact run_bound. Qed.
 
@@ -181,23 +179,30 @@ Proof. exact run_pieces. Qed.
    which reduces every generic value modulo 2^bits when it is pushed.  For every program, configuration and answer list
    every state it hands back to the consumer has a stack whose generic values are canonical (gcanon bits v :=
    vty v = TGeneric -> vbits v < 2^bits) — so it is the DWARF stack machine over Z/2^bits: all its Value operations,
-   the shift counts included, fall under value_ops.  gimli is compared with it modulo 2^bits (class n of c07.spec). *)
+   the shift counts included, act on canonical operands.  gimli is compared with it modulo 2^bits (class n of c07.spec). *)
 Theorem normalised_machine_canonical : forall (F : fops) (dbg : bool) (c : cfg) (mask bits : N), c_canon c = Some bits ->
   (forall fuel program o s, evaluate F fuel dbg c mask program = Ok (o, s) -> Forall (gcanon bits) (s_stack s)) /\
   (forall fuel w a s o s', Forall (gcanon bits) (s_stack s) -> resume F fuel dbg c mask w a s = Ok (o, s') ->
      Forall (gcanon bits) (s_stack s')).
 Proof. exact normalised_machine_lemma. Qed.
 
-(* The hypothesis n < u32::MAX of iteration_bound is necessary: `self.iteration += 1` is a plain u32 addition that is
-   executed before the comparison `iteration > max_iterations`, which can never hold for max_iterations = u32::MAX.
-   For the self-loop `DW_OP_skip -3` with set_max_iterations(u32::MAX) the model of the debug build panics at the
-   2^32-th iteration and the model of the release build never terminates, whatever the fuel.  (Model-level statement:
-   2^32 iterations of the real evaluator are out of reach of the correspondence streams; the code is the same
-   `+= 1` for every limit.  proposed_fixes/c07_iteration_counter_overflow.diff) *)
-Theorem iteration_limit_u32_max_refuted :
-  c_max loop_cfg = Some 4294967295 /\
-  (exists fuel, run no_fops fuel true loop_cfg loop_prog [] = ([], FPanic)) /\
-  (forall fuel, run no_fops fuel false loop_cfg loop_prog [] = ([], FOutOfFuel)).
+(* No limit set: the iteration counter is not touched at all (so it cannot overflow however long the evaluation
+   runs), and evaluate_internal does not panic. *)
+Theorem iteration_unlimited : forall (F : fops) (dbg : bool) (c : cfg) (mask : N), c_max c = None ->
+  forall fuel s, inv s -> evaluate_internal F fuel dbg c mask s <> Panic /\
+  forall o s', evaluate_internal F fuel dbg c mask s = Ok (o, s') -> inv s' /\ s_iter s' = s_iter s.
+Proof. exact ei_unlimited. Qed.
+
+(* Panic freedom of the evaluator: every iteration limit that is a u32, or none; every address size up to 8 (larger
+   ones overflow the shift in Evaluation::new in debug builds); every program, answer list, fuel, both build modes. *)
+Theorem eval_no_panic : forall (F : fops) (dbg : bool) (c : cfg) (fuel : nat) (program : list byte) (answers : list answer),
+  lim_cfg c -> e_asz (c_enc c) <= 8 -> snd (run F fuel dbg c program answers) <> FPanic.
+Proof. exact run_no_panic. Qed.
+
+(* the repaired behaviour of the former defect: set_max_iterations(u32::MAX) stops the self-loop `DW_OP_skip -3`
+   with the limit error after 2^32-1 iterations in both build modes (before: debug panic / release non-termination) *)
+Example iteration_limit_u32_max_repaired : forall dbg,
+  exists fuel, run no_fops fuel dbg loop_cfg loop_prog [] = ([], FErr ETooManyIterations).
 Proof. exact iteration_limit_u32_max_lemma. Qed.
 
 Definition ex_cfg (maxit : option N) : cfg := mkCfg (mkEnc 4 false 4 false) None maxit None None None None None.
@@ -226,22 +231,18 @@ Example pieces_ex_unterminated :   (* a piece followed by an unterminated comput
   run no_fops 20 true (ex_cfg None) [x50; x93; x04; x35] [] = ([], FErr EInvalidPiece) /\
   run no_fops 20 true (ex_cfg None) [x50; x35] [] = ([], FErr EInvalidExpressionTerminator).
 Proof. split; vm_compute; reflexivity. Qed.
-Example normalised_ex_shift :   (* lit1; const4u 0x80000001; lit1; shl; shl on a 4-byte target: gimli 0, stack machine 4 *)
+Example normalised_ex_shift :   (* lit1; const4u 0x80000001; lit1; shl; shl on a 4-byte target: 4 (0 before repair 0858756) *)
   run no_fops 9 true (ex_cfg (Some 8)) [x31; x0c; x01; x00; x00; x80; x31; x24; x24] [] =
-    ([], FComplete [mkPiece None None (LAddress 0)] (Some (mkV TGeneric 0)) 5 5) /\
+    ([], FComplete [mkPiece None None (LAddress 4)] (Some (mkV TGeneric 4)) 5 5) /\
   run no_fops 9 true (mkCfg (mkEnc 4 false 4 false) None (Some 8) None None None None (Some 32))
       [x31; x0c; x01; x00; x00; x80; x31; x24; x24] [] =
     ([], FComplete [mkPiece None None (LAddress 4)] (Some (mkV TGeneric 4)) 5 5).
 Proof. split; vm_compute; reflexivity. Qed.
-Example iteration_counter_u32 :   (* why iteration_bound needs n < u32::MAX: `iteration += 1` at u32::MAX *)
-  chk_add 32 true 4294967295 1 = Panic /\ chk_add 32 false 4294967295 1 = Ok 0.
-Proof. split; vm_compute; reflexivity. Qed.
-
 Check decode_table : forall (dbg : bool) (e : enc) (opc : byte) (bs : list byte),
   parse_op dbg e (opc :: bs) = generic_decode dbg e opc bs.
 Check decode_no_panic : forall (dbg : bool) (e : enc) (bs : list byte),
   parse_op dbg e bs <> Panic /\ parse_op dbg e bs <> OutOfFuel.
 Check iteration_bound : forall (F : fops) (dbg : bool) (c : cfg) (n : N) (fuel : nat)
     (program : list byte) (answers : list answer),
-  c_max c = Some n -> n < 4294967295 -> e_asz (c_enc c) <= 8 -> (N.to_nat n < fuel)%nat ->
+  c_max c = Some n -> n <= 4294967295 -> e_asz (c_enc c) <= 8 -> (N.to_nat n < fuel)%nat ->
   bounded_final n (snd (run F fuel dbg c program answers)).
